@@ -344,6 +344,7 @@ func (e *engine) runLayout(s spec, l layout, baseOuts [][]byte, baseRes, baseObs
 				copy(g.saved[g.off:g.off+g.n], g.buf[g.off:g.off+g.n])
 			}
 			g.check(&fs)
+			g.saved = bytes.Clone(g.buf) // later comparisons are against the state after the call
 		}
 		if res != baseRes {
 			e.o.Violate("%s %s: result depends on the memory layout of the inputs: %q with exact-size inputs, %q with guarded inputs", s.api, l.name, baseRes, res)
